@@ -129,6 +129,8 @@ _T2 = ("hosts: &port [a]\nbase: &base {x: 1}\nweb:\n  <<: *base\n"
 _T3 = "x: &x {k: 1}\nb:\n  z: 0\n  <<: *x\n"
 _T4 = "x: &x {k: 1}\ny: &y {j: 2}\nb:\n  <<: [*x, *y]\n  z: 0\n"
 _T5 = "x: &x {k: 1}\nb:\n  <<: *x\n  k: 1\n  z: 0\n"
+_T6 = ("base: &base {x: 1, w: 2}\nweb:\n  <<: *base\n  port: 8080\n"
+       "db:\n  <<: *base\n")
 MERGE_CASES = [
     # a merge reference deleted by its anchor: last in the hash, one of two,
     # next to an own key repeating a merged-in value
@@ -155,6 +157,11 @@ MERGE_CASES = [
                          "web": {"port": 8080, "base": 5}}),
     (_T2, "/hosts", {"base": {"x": 1},
                      "web": {"x": 1, "port": 8080, "base": 5}}),
+    # a key of the ANCHORED hash deleted: gone from every hash inheriting it
+    # too, in the live document as in the written one
+    (_T6, "/base/x", {"base": {"w": 2}, "web": {"w": 2, "port": 8080},
+                      "db": {"w": 2}}),
+    (_T6, "/base/*", {"base": {}, "web": {"port": 8080}, "db": {}}),
 ]
 
 
